@@ -52,6 +52,8 @@ func corpus() []ccase {
 	extra.SampleLimit = 5
 	ldrop := base
 	ldrop.Rules = []string{"labeldrop-b"}
+	ldropTrack := ldrop
+	ldropTrack.TrackTS = true
 	pool := []string{"m0", "m1", "m2", `m0{a="1"}`, `m1{a="1",b="x"}`, `m1{b="x",a="1"}`, `m1{a="1",b="y"}`}
 	t1 := baseTime + 15000
 	return []ccase{
@@ -68,6 +70,9 @@ func corpus() []ccase {
 		// two metric texts, one label set
 		{"alias-texts", base, pool, []cstep{body(1, en(4, 1), en(5, 2)), body(2, en(4, 3)), body(3, en(5, 4)).gc(5), body(4, en(6, 1))}},
 		{"alias-by-labeldrop", ldrop, pool, []cstep{body(1, en(4, 1), en(6, 2)), body(2, en(6, 3)), body(3, en(4, 4)).gc(5), body(4)}},
+		// the same with tracking of timestamped series: after the reference change the series is exposed
+		// through the other text with an explicit timestamp and still gets a marker at the scrape time
+		{"alias-ref-change-timestamped", ldropTrack, pool, []cstep{body(1, en(4, 1), en(6, 2)), body(2, ent(4, 3, t1+14000)).gc(5), body(3, en(4, 4))}},
 		// explicit timestamps: not tracked unless track_timestamps_staleness
 		{"explicit-ts", base, pool, []cstep{body(1, ent(0, 1, t1-5), en(1, 2)), body(2, en(1, 3)), body(3, en(0, 1)), body(4, ent(0, 1, t1+40000)), body(5)}},
 		{"explicit-ts-tracked", track, pool, []cstep{body(1, ent(0, 1, t1-5), en(1, 2)), body(2, en(1, 3)), body(3, en(0, 1)), body(4, ent(0, 1, t1+40000)), body(5)}},
